@@ -176,11 +176,6 @@ func (r FileReplacer) Replace(d data.Data, cl Changelog) (*ast.File, error) {
 		file.Name.Name = r.Package
 	}
 
-	newImports, err := r.Imports.Replace(d, cl, file)
-	if err != nil {
-		return nil, err
-	}
-
 	// Matches were collected in pre-order. Replace them in reverse so that
 	// a match nested inside a node that another match reproduces (for
 	// example, a block among the statements skipped by a "...") is
@@ -209,6 +204,14 @@ func (r FileReplacer) Replace(d data.Data, cl Changelog) (*ast.File, error) {
 		if give.Type().AssignableTo(v.Type()) {
 			v.Set(give)
 		}
+	}
+
+	// Imports are added only now: a new import declaration shifts
+	// file.Decls, and matched top-level declarations are addressed by their
+	// index in it.
+	newImports, err := r.Imports.Replace(d, cl, file)
+	if err != nil {
+		return nil, err
 	}
 
 	parenthesize(file)
